@@ -12,6 +12,8 @@ import (
 	"errors"
 	"fmt"
 	"image"
+	"os"
+	"path/filepath"
 	"sort"
 	"strings"
 	"sync"
@@ -308,6 +310,21 @@ func runC09(c *Ctx) {
 		want    string
 	}
 	var jobs []job
+	// corpus first: witnesses of past findings and boundary payloads
+	if b, err := os.ReadFile(filepath.Join(c18HarnessDir(), "..", "corpus", "C09", "contents.txt")); err == nil {
+		for _, l := range strings.Split(string(b), "\n") {
+			f := strings.Fields(l)
+			if len(f) != 3 || strings.HasPrefix(l, "#") {
+				continue
+			}
+			for si := range c09Syms {
+				if c09Syms[si].Name == f[0] {
+					jobs = append(jobs, job{&c09Syms[si], f[1], f[2]})
+					c.Note("corpus-content")
+				}
+			}
+		}
+	}
 	for si := range c09Syms {
 		s := &c09Syms[si]
 		for k := 0; k < nContents; k++ {
@@ -371,7 +388,7 @@ func runC09(c *Ctx) {
 				c.Note(fmt.Sprintf("%s:%s:rot%d:%s", s.Name, cl, p.Rot*90, rd.Out))
 				c.Oracle("c09-neg", true, "", desc, "")
 			case rd.Out == "text":
-				c.Oracle("c09-neg", false, "misread:"+s.Name, desc, fmt.Sprintf("read %q, written %q (expected %q)", rd.Text, j.content, j.want))
+				c.Oracle("c09-neg", false, fmt.Sprintf("misread:%s:rot%d", s.Name, p.Rot*90), desc, fmt.Sprintf("read %q, written %q (expected %q)", rd.Text, j.content, j.want))
 				continue
 			default:
 				c.Oracle("c09-neg", false, "not-a-reader-exception:"+s.Name+":"+rd.Out, desc, "outcome "+rd.Out)
